@@ -6,6 +6,8 @@ every iteration are executed, all others are summarised by one symbolic
 iteration (havoc of modified cells, affine induction variables in closed form).
 Nothing is executed concretely and no solver is called.
 """
+import os
+
 from . import facts
 from .facts import AnalysisBroken, fn_body, fn_params, where
 from .terms import (C, ZERO, ONE, UNINIT, Dom, INF, Lin, lin_of, term_of_lin, is_const, mk_byte, mk_cat,
@@ -110,6 +112,14 @@ class Interp(object):
         self.steps += 1
         if self.steps > MAX_STEPS:
             raise AnalysisBroken('step budget exhausted in %s' % self.entry_name)
+        if (self.steps & 0xFFF) == 0:
+            import time
+            if self.deadline is None:
+                self.deadline = time.time() + float(os.environ.get('LLTD_ENGINE_BUDGET_S', '240'))
+            elif time.time() > self.deadline:
+                raise AnalysisBroken('time budget exhausted in %s (engine met code it cannot summarise in time)' % self.entry_name)
+
+    deadline = None
 
     # ------------------------------------------------------------------ types
     def ty(self, node):
@@ -149,6 +159,19 @@ class Interp(object):
         for i, (st, ctl) in enumerate(outs):
             pre.setdefault((st.pre_sig(), ctl[0] if ctl is not None else None), []).append(i)
         lone = set(v[0] for v in pre.values() if len(v) == 1)
+        bytewise = None
+        if not raw:
+            bytewise = set()
+            for idxs in pre.values():
+                if len(idxs) < 2:
+                    continue
+                first = outs[idxs[0]][0]
+                for i in idxs[1:]:
+                    st2 = outs[i][0]
+                    for oid, o in st2.objs.items():
+                        o1 = first.objs.get(oid)
+                        if o1 is None or o1.cells.keys() != o.cells.keys():
+                            bytewise.add(oid)
         for i, (st, ctl) in enumerate(outs):
             if i in lone:
                 sig = ('lone', i)
@@ -163,8 +186,17 @@ class Interp(object):
                 else:
                     csig = ctl
             tr = tuple(st.dom(t) for t in self.tracked)
-            sig = (csig, st.mem_sig(raw), tr)
-            g = groups.get(sig)
+            if raw:
+                sig = (csig, st.raw_hash(), tr)
+                g = groups.get(sig)
+                n_ = 0
+                while g is not None and not g[0].raw_equal(st):
+                    n_ += 1
+                    sig = (csig, st.raw_hash(), tr, n_)
+                    g = groups.get(sig)
+            else:
+                sig = (csig, st.mem_sig(raw, None, bytewise), tr)
+                g = groups.get(sig)
             if g is None:
                 groups[sig] = [st, ctl, False]
                 order.append(sig)
@@ -191,7 +223,9 @@ class Interp(object):
                     (X, cx), (Y, cy) = alive[i], alive[j]
                     if (cx is None) != (cy is None) or (cx is not None and cx[0] != cy[0]):
                         continue
-                    if X.pre_sig() != Y.pre_sig() or not Y.eq:
+                    if not Y.eq or X.pre_sig() != Y.pre_sig():
+                        continue
+                    if X.frames != Y.frames or X.tags != Y.tags:
                         continue
                     if cx is not None and cx[0] == 'return':
                         vx, vy = cx[1], cy[1]
@@ -201,7 +235,15 @@ class Interp(object):
                             continue
                     if tuple(X.dom(t) for t in self.tracked) != tuple(Y.dom(t) for t in self.tracked):
                         continue
-                    if X.mem_sig(False, Y) == Y.mem_sig(False):
+                    diff = X.diff_objects(Y)
+                    if diff is None or len(diff) > 3:
+                        continue
+                    same = True
+                    for oid in diff:
+                        if self._obj_bytes(X.objs[oid], Y) != self._obj_bytes(Y.objs[oid], Y):
+                            same = False
+                            break
+                    if same:
                         X.join_knowledge(Y)
                         del alive[j]
                         changed = True
@@ -209,6 +251,18 @@ class Interp(object):
                 if changed:
                     break
         return alive
+
+    @staticmethod
+    def _obj_bytes(o, cst):
+        ent = {}
+        for k, (w, t) in o.cells.items():
+            ct = t if t[0] == 'c' else cst.canon(t)
+            if w == 1:
+                ent[k] = ct if ct[0] != 'c' else C(ct[1] & 0xFF)
+            else:
+                for i in range(w):
+                    ent[(k[0], k[1] + i)] = mk_byte(ct, i)
+        return ent
 
     # ------------------------------------------------------------------ pointers
     def targets(self, st, pt):
